@@ -25,6 +25,8 @@ def declare(c):
     c.rule('C19.R3', 'parameterItems yields (upper-cased letter, float(value) | None) in source order and continues at the '
                      'end of each match; parameterDict is last-wins', floor=4)
     c.rule('C19.R5', 'a repeated word: the handlers act on the last value given for the letter', floor=8)
+    c.rule('C19.R6', 'the trailing (\'\', text) item of parameterItems (value-less words, stray text) never changes what a '
+                       'handler does', floor=100)
     c.rule('C19.R4', 'letter -> argument flow: each axis/feed/offset is fed only by its own letter; valueless words are '
                      'skipped', floor=100)
 
@@ -160,6 +162,7 @@ def items_rules(ctx, I):
 def path_rules(col, gcode, paths, I):
     declare(col)
     letters = set('XYZEFRIJPLS')
+    strarg_rule(col, gcode, paths, I)
     for p in paths:
         f = Facts(p, I)
         if f.raised:
@@ -220,6 +223,34 @@ def path_rules(col, gcode, paths, I):
                                'an axis is homed although other axes were named and this one was not')
                 if allabsent and not homed:
                     col.report('C19.R4', 'GcodeHandlers._handle_G28', 'bare G28 does not home %s' % L, 'G28 without flags homes all axes')
+
+
+def strarg_rule(col, gcode, paths, I):
+    """parameterItems ends with a ('', text) item whenever the command has a value-less word or text that is no word; it is
+    not a letter/value pair of the reference reading, so a handler must behave the same with and without it"""
+    from .values import vkey
+    key = ('param', ('sstr', 'CMD'), '')
+    with_item, without = set(), set()
+    example = {}
+    for p in paths:
+        f = Facts(p, I)
+        dom = p.st.dom.get(key)
+        col.instance('C19.R6', (gcode, f.describe(), tuple(f.decisions()[-4:])))
+        if dom is None or len(dom) != 1:
+            continue
+        heap = tuple(sorted((repr(k), repr(vkey(v))) for k, v in p.st.heap.items() if str(k[0]).startswith('H.state')))
+        others = tuple(d for d in f.decisions() if "'')" not in d)
+        sig = ('raises' if f.raised else f.describe(), heap, others)
+        (with_item if dom == frozenset(['F']) else without).add(sig)
+        example.setdefault(sig, (p, f))
+    for sig in sorted(with_item ^ without, key=repr)[:4]:
+        p, f = example[sig]
+        col.report('C19.R6', 'GcodeHandlers._handle_%s' % gcode,
+                   '%s reacts to the string-argument item (%s it: %s)' % (gcode, 'with' if sig in with_item else 'without', sig[0]),
+                   'the handler behaves differently when parameterItems appends its (\'\', text) item - that is for "%s S" or '
+                   '"%s S1." as opposed to "%s S1": the item is not a parameter word (a membership test against a string, or '
+                   'a comparison that the empty label satisfies?)' % (gcode, gcode, gcode),
+                   detail={'entry': p.entry, 'decisions': f.decisions()})
 
 
 def dup_rules(col, gcode, paths, I):
